@@ -65,3 +65,5 @@ LEVEL_TEXT = ("c01_invariant proves the accounting invariant for every history o
               "Tie: real sessions emit an ordered trace of their shared-memory steps; the Lean step function must accept it and predict list/selection/clear state after every loop iteration.")
 LEVEL_NOTE = ("PARTIAL for liveness: termination needs weak fairness of the four threads, which is not formalised. Granularity: safety is proved at read granularity (fg_*); the trace replay of heart beats is at read granularity too (trace order, nothing moved); liveness is stated for the "
               "coarse system (atomic handlers with stale-false reads). Trusted: Lean kernel, the trace hooks (feature `verif`) and vlib/props/session.py (linearisation rules stated there), rayon/crossbeam/timer.")
+
+TECHNIQUE += ' + weak-fairness liveness theorem (c01_fair_quiescence: helpful-class rule over infinite executions, Props/C01Fair.lean)'
